@@ -31,7 +31,7 @@ theorem run_eq (c : Contract) (exec : Nat) : c.run exec = runTable (decide (c.ga
 
 /-- `ProcessCallback` as a decision table: (result, wrote) -/
 def pcTable (isSend : Bool) (raw : Raw) (past retry : Bool) : PcResult × Bool :=
-  let wrote := raw == .retOk
+  let wrote := raw == .retOk && !past
   let isPanic := raw == .panicked || raw == .panickedOog
   if isPanic && isSend then (if raw == .panickedOog then .panicOog else .panic, wrote)
   else if past then (if retry then .panicOog else .errOog, wrote)
